@@ -25,7 +25,7 @@ struct Rng {
 enum Strategy { UNIFORM = 0, STICKY = 1, PCT = 2, STARVE = 3 };
 
 struct Decision {
-    char kind;     // 'S' schedule, 'P' spurious wake, 'W' signal target, 'J' clock jump, 'H' harness choice
+    char kind;     // 'S' schedule, 'P' spurious wake, 'W' signal target, 'J' clock jump, 'H' harness choice, 'F' injected call failure
     int32_t val;   // S: thread id (-1 = default policy), P: thread id or -1, W: waiter index, J: delta ms, H: choice
 };
 
@@ -41,6 +41,7 @@ struct Config {
     bool random_signal = false;   // pthread_cond_signal wakes a PRNG-chosen waiter (else the longest waiting)
     double clock_jump_rate = 0.0; // probability per scheduling point of a wall-clock jump
     int64_t clock_jump_ms = 0;    // magnitude of a jump (sign is drawn)
+    double create_fail_rate = 0.0; // probability that pthread_create fails with EAGAIN (only harnesses whose oracle allows for it)
     int clock_step_max_ms = 2;    // per scheduling point the clock advances U[0,max] ms
     int step_cap = 20000;
     bool atomic_points = true;    // T-flavour only: every instrumented std::atomic operation of tulz/harness code is a scheduling point
@@ -86,7 +87,7 @@ struct Stats {
     uint32_t switches = 0;        // context switches
     uint32_t threads = 0;
     uint32_t spurious = 0, signal_choices = 0, clock_jumps = 0, late_starts = 0, starved_steps = 0;
-    uint32_t mutex_contended = 0, cond_parks = 0, atomic_points = 0;
+    uint32_t mutex_contended = 0, cond_parks = 0, atomic_points = 0, create_failures = 0;
     int64_t sim_ms = 0;
     uint64_t sched_hash = 0;      // hash of all decisions
     uint64_t event_hash = 0;      // hash of all events
